@@ -293,7 +293,7 @@ class UnitType(MichelsonType, prim='unit'):
         return False
 
     def __eq__(self, other: 'UnitType'):  # type: ignore
-        return True
+        return isinstance(other, UnitType)
 
     def __hash__(self):
         return hash(Unit)
@@ -330,4 +330,4 @@ class NeverType(MichelsonType, prim='never'):
         return False
 
     def __eq__(self, other: 'NeverType'):  # type: ignore
-        return True
+        return isinstance(other, NeverType)
